@@ -75,7 +75,7 @@ class CompiledFunction:
     )  # bytecode_pos -> (line, column)
 
 
-@dataclass
+@dataclass(eq=False)  # contexts are compared by identity: nested ones may have equal fields
 class LoopContext:
     """Context for loops (for break/continue)."""
 
@@ -89,7 +89,7 @@ class LoopContext:
     try_depth: int = 0  # len(try_stack) when the construct was entered
 
 
-@dataclass
+@dataclass(eq=False)
 class TryContext:
     """Context for try-finally blocks (for break/continue/return)."""
 
